@@ -80,6 +80,7 @@ func (g *gen) call(instr ssa.Instruction, c *ssa.CallCommon, pos token.Pos) Val 
 		} else {
 			g.assumed["frame:"+full] = true
 		}
+		g.tick()
 		return g.resultVal(sig, func(i int, t types.Type) Val { v := g.freshVal("ret_"+c.Method.Name(), t); g.notePtr(v); return v })
 	}
 
@@ -104,6 +105,7 @@ func (g *gen) call(instr ssa.Instruction, c *ssa.CallCommon, pos token.Pos) Val 
 		// dynamic call through a function value
 		g.callSiteClauses("<dynamic>", args, c, pos)
 		g.havocAllHeap("dynamic call")
+		g.tick()
 		return g.resultVal(sig, func(i int, t types.Type) Val { v := g.freshVal("ret_dyn", t); g.notePtr(v); return v })
 	}
 	key := funcKey(callee)
@@ -122,7 +124,9 @@ func (g *gen) call(instr ssa.Instruction, c *ssa.CallCommon, pos token.Pos) Val 
 			return g.applyContractFn(ctr, key, callee, args, bindings, pos)
 		}
 		// no contract: inferred frame, unconstrained results
+		g.frameCheckKeys(g.e.modSetOf(callee), pos, callee.Name())
 		g.havocKeys(g.e.modSetOf(callee))
+		g.tick()
 		return g.resultVal(sig, func(i int, t types.Type) Val { v := g.freshVal("ret_"+callee.Name(), t); g.notePtr(v); return v })
 	}
 	if ctr := g.e.ext[key]; ctr != nil {
@@ -143,6 +147,7 @@ func (g *gen) call(instr ssa.Instruction, c *ssa.CallCommon, pos token.Pos) Val 
 			g.storePlace(a.Place, g.freshVal("ext_out", placeType(a.Place)).T)
 		}
 	}
+	g.tick()
 	return g.resultVal(sig, func(i int, t types.Type) Val { v := g.freshVal("ret_"+callee.Name(), t); g.notePtr(v); return v })
 }
 
@@ -181,7 +186,7 @@ func (g *gen) callSiteClauses(key string, args []Val, c *ssa.CallCommon, pos tok
 		}
 		t, err := g.evalBool(env, cc.E)
 		if err != nil {
-			g.unsupportedf("call clause %s: %v", cc.Label, err)
+			g.contractErr("call-clause", cc.Label, err)
 			continue
 		}
 		g.oblige("call/"+cc.Callee, cc.Label, t, pos, cc.Props)
@@ -283,7 +288,7 @@ func (g *gen) applyContractEnv(ctr *Contract, key string, sig *types.Signature, 
 	for _, r := range ctr.Requires {
 		t, err := g.evalBool(env, r.E)
 		if err != nil {
-			g.unsupportedf("call %s requires %s: %v", short, r.Label, err)
+			g.contractErr("call-"+short+"-requires", r.Label, err)
 			continue
 		}
 		if ctr.External && !g.options.safety {
@@ -303,6 +308,17 @@ func (g *gen) applyContractEnv(ctr *Contract, key string, sig *types.Signature, 
 				g.havocAllHeap("bad assigns")
 				break
 			}
+			g.frameCheckPlace(p, pos, "call "+short+" assigns "+a.String())
+			if p.Kind == plMap {
+				ks, vs, ds, vsrt := g.mapSorts(p.MapT)
+				for _, kk := range []struct{ key, srt, inner string }{{mapDomKey(ks, vs), ds, arr(ks, "Bool")}, {mapValKey(ks, vs), vsrt, arr(ks, vs)}} {
+					h := g.heapGet(kk.key, kk.srt)
+					nv := g.freshName("havoc_map")
+					g.declare(nv, kk.inner)
+					g.heapSet(kk.key, kk.srt, app("store", h, p.Ref, nv))
+				}
+				continue
+			}
 			if p.Idx == "*" {
 				es := g.st.sortOf(p.Elem)
 				k := elemKey(es)
@@ -316,7 +332,12 @@ func (g *gen) applyContractEnv(ctr *Contract, key string, sig *types.Signature, 
 			g.storePlace(p, g.freshVal("havoc_"+short, placeType(p)).T)
 		}
 	} else if callee != nil && g.e.inRepo(callee) {
-		g.havocKeys(g.e.modSetOf(callee))
+		ms := g.e.modSetOf(callee)
+		g.frameCheckKeys(ms, pos, short)
+		g.havocKeys(ms)
+	}
+	if !ctr.Pure || ctr.Fresh {
+		g.tick()
 	}
 	// results
 	var results []Val
@@ -345,25 +366,17 @@ func (g *gen) applyContractEnv(ctr *Contract, key string, sig *types.Signature, 
 		if r.Sort == "Slice" {
 			r = Val{T: app("s_base", r.T), Sort: "Int"}
 		}
-		conds := []string{app(">", r.T, "0")}
-		seen := map[string]bool{}
-		for _, p := range append(append([]string{}, g.allocs...), g.knownPtrs...) {
-			if !seen[p] && p != r.T {
-				seen[p] = true
-				conds = append(conds, not(eq(r.T, p)))
-			}
+		preNow := pre.heap["NOW"]
+		if preNow == "" {
+			preNow = g.now0()
 		}
-		g.assume(and(conds...))
+		g.assume(and(app(">", r.T, "0"), app(">", g.birth(r.T), preNow), app("<=", g.birth(r.T), g.now())))
 		g.allocs = append(g.allocs, r.T)
-	} else {
-		for _, r := range results {
-			g.notePtr(r)
-		}
 	}
 	for _, en := range ctr.Ensures {
 		t, err := g.evalBool(&post, en.E)
 		if err != nil {
-			g.unsupportedf("call %s ensures %s: %v", short, en.Label, err)
+			g.contractErr("call-"+short+"-ensures", en.Label, err)
 			continue
 		}
 		g.assume(t)
@@ -438,7 +451,7 @@ func (g *gen) builtin(b *ssa.Builtin, c *ssa.CallCommon, args []Val, pos token.P
 			h := g.heapGet(k, as)
 			nv := g.freshName("copy_dst")
 			g.declare(nv, arr("Int", es))
-			g.frameCheckBase(app("s_base", dst.T), pos, "copy into "+c.Args[0].Name())
+			g.frameCheckPlace(&Place{Kind: plElem, Base: app("s_base", dst.T), Idx: "*", Elem: st.Elem()}, pos, g.label(pos, "copy", "call"))
 			// elements outside [off, off+n) keep their values; inside they equal the source
 			q := g.freshName("q")
 			old := app("select", h, app("s_base", dst.T))
@@ -491,7 +504,7 @@ func (g *gen) builtin(b *ssa.Builtin, c *ssa.CallCommon, args []Val, pos token.P
 	return Val{}
 }
 
-func (g *gen) frameCheckBase(base string, pos token.Pos, what string) {}
+
 
 // appendBuiltin: append(s, t...) — in place when capacity suffices (aliasing visible), fresh base otherwise.
 func (g *gen) appendBuiltin(c *ssa.CallCommon, args []Val, pos token.Pos) Val {
@@ -522,8 +535,12 @@ func (g *gen) appendBuiltin(c *ssa.CallCommon, args []Val, pos token.Pos) Val {
 	newLen := app("+", app("s_len", s.T), tlen)
 	inPlace := g.define("append_inplace", "Bool", and(app("<=", newLen, app("s_cap", s.T)), not(eq(app("s_base", s.T), "0"))))
 	fresh := g.newAlloc("append_base")
-	resBase := ite(inPlace, app("s_base", s.T), fresh)
-	resOff := ite(inPlace, app("s_off", s.T), "0")
+	resBase := g.freshName("append_rbase")
+	g.declare(resBase, "Int")
+	g.assumeGlobal(eq(resBase, ite(inPlace, app("s_base", s.T), fresh)))
+	resOff := g.freshName("append_roff")
+	g.declare(resOff, "Int")
+	g.assumeGlobal(eq(resOff, ite(inPlace, app("s_off", s.T), "0")))
 	ncap := g.freshName("append_cap")
 	g.declare(ncap, "Int")
 	g.assumeGlobal(app(">=", ncap, newLen))
@@ -546,9 +563,10 @@ func (g *gen) appendBuiltin(c *ssa.CallCommon, args []Val, pos token.Pos) Val {
 			inPl = app("store", inPl, sidx(tailStart, fmt.Sprint(j)), elemOfT(fmt.Sprint(j)))
 		}
 		g.assumeGlobal(implies(inPlace, eq(na, inPl)))
-		g.assumeGlobal(implies(not(inPlace), fmt.Sprintf("(forall ((%s Int)) (! (=> (and (<= 0 %s) (< %s %s)) (= (select %s %s) (select %s %s))) :pattern ((select %s %s))))", q, q, q, sLen, na, q, oldArr, sidx(sOff, q), na, q)))
+		// facts that hold in both cases, stated uniformly over the result's own offset
+		g.assumeGlobal(fmt.Sprintf("(forall ((%s Int)) (! (=> (and (<= 0 %s) (< %s %s)) (= (select %s %s) (select %s %s))) :pattern ((select %s %s))))", q, q, q, sLen, na, sidx(resOff, q), oldArr, sidx(sOff, q), na, sidx(resOff, q)))
 		for j := 0; j < nconst; j++ {
-			g.assumeGlobal(implies(not(inPlace), eq(app("select", na, sidx(sLen, fmt.Sprint(j))), elemOfT(fmt.Sprint(j)))))
+			g.assumeGlobal(eq(app("select", na, sidx(resOff, sidx(sLen, fmt.Sprint(j)))), elemOfT(fmt.Sprint(j))))
 		}
 	} else {
 		// prefix
@@ -563,7 +581,20 @@ func (g *gen) appendBuiltin(c *ssa.CallCommon, args []Val, pos token.Pos) Val {
 	return Val{T: res, Sort: "Slice", Typ: s.Typ}
 }
 
-func (g *gen) frameCheckAppend(s Val, inPlace string, pos token.Pos) {}
+// an append that fits into the capacity writes the backing array of its first operand
+func (g *gen) frameCheckAppend(s Val, inPlace string, pos token.Pos) {
+	if !g.frameMode {
+		return
+	}
+	st := s.Typ.Underlying().(*types.Slice)
+	p := &Place{Kind: plElem, Base: app("s_base", s.T), Idx: "*", Elem: st.Elem()}
+	for _, a := range g.allocs {
+		if a == p.Base {
+			return
+		}
+	}
+	g.oblige("frame", g.label(pos, "append", "call"), implies(inPlace, g.allowedWrite(p)), pos, g.frameProps)
+}
 
 // ---------------------------------------------------------------------------
 // intrinsics: meaning of a few standard-library functions, stated directly in SMT
@@ -815,3 +846,17 @@ func (e *Engine) invokeModSet(c *ssa.CallCommon) map[string]bool {
 }
 
 var _ = strconv.Itoa
+
+// frameCheckKeys: a callee without an `assigns` clause may write whole heap arrays; inside a function
+// that has a frame this cannot be justified location by location.
+func (g *gen) frameCheckKeys(keys map[string]bool, pos token.Pos, callee string) {
+	if !g.frameMode || len(keys) == 0 {
+		return
+	}
+	var ks []string
+	for k := range keys {
+		ks = append(ks, k)
+	}
+	sort.Strings(ks)
+	g.oblige("frame", "call "+callee+" has no assigns clause (may write "+strings.Join(ks, ",")+")", "false", pos, g.frameProps)
+}
